@@ -114,6 +114,9 @@ def tree_hash(with_tests=False):
     return h.hexdigest()[:20]
 
 
+USED_CACHE_DIRS = set()     # the entries this process worked with (report.run_check removes them for ephemeral overlays)
+
+
 def cache_dir(with_tests=False):
     key = tree_hash(with_tests) + ("-t" if with_tests else "")
     base = os.path.join(WORK, "cache")
@@ -132,6 +135,7 @@ def cache_dir(with_tests=False):
             pass
         os.makedirs(d, exist_ok=True)
     os.utime(d, None)
+    USED_CACHE_DIRS.add(d)
     return d
 
 
